@@ -161,9 +161,20 @@ func c05Scenario(c *Ctx, idx int, r *Rng) {
 		"*.bin filter=lfs diff=lfs merge=lfs -text\n*.dat filter=lfs -text\n",
 		"*.bin filter=lfs -diff\n*.dat filter=lfs binary\n",
 		"*.bin filter=lfs diff=lfs merge=lfs -text\n*.dat filter=lfs -diff -text\n"})
-	refsDays := Pick(r, []int{-1, -1, 0, 0, 7, 30}) // -1 = unset (default 7)
-	commitsDays := Pick(r, []int{-1, -1, 0, 7})  // default 0
-	offsetDays := Pick(r, []int{-1, -1, 0, 3})   // default 3
+	refsDays := Pick(r, []int{-1, -1, 0, 0, 1, 3, 7, 30}) // -1 = unset (default 7)
+	commitsDays := Pick(r, []int{-1, -1, 0, 1, 3, 7})  // default 0
+	offsetDays := Pick(r, []int{-1, -1, 0, 1, 3, 7})   // default 3
+	// directed family "retention windows": everything gets pushed, so only the recent-ref and
+	// recent-commit windows (each measured from the tip of ITS ref) decide what survives; several
+	// branches left behind at different ages, the same few files rewritten again and again
+	windows := r.Chance(25)
+	if windows {
+		refsDays = Pick(r, []int{7, 30, 30})
+		commitsDays = Pick(r, []int{1, 3, 7, 7})
+		offsetDays = Pick(r, []int{0, 1, 3})
+		s.age = Pick(r, []float64{40.5, 25.5, 14.5})
+		c.R.Count("family.retention-windows")
+	}
 	if refsDays >= 0 {
 		w.git("config", "lfs.fetchrecentrefsdays", fmt.Sprint(refsDays))
 	} else {
@@ -198,8 +209,16 @@ func c05Scenario(c *Ctx, idx int, r *Rng) {
 	stashes := 0
 	detached := false
 	nops := 5 + r.Intn(9)
+	if windows {
+		files = []string{"a.bin", "dir/c.bin"}
+		nops += 4
+	}
 	for op := 0; op < nops; op++ {
-		switch r.Intn(14) {
+		choice := r.Intn(14)
+		if windows {
+			choice = Pick(r, []int{0, 0, 0, 0, 4, 5, 5, 7})
+		}
+		switch choice {
 		case 0, 1, 2, 3:
 			k := 1 + r.Intn(2)
 			for j := 0; j < k; j++ {
@@ -323,6 +342,10 @@ func c05Scenario(c *Ctx, idx int, r *Rng) {
 			s.commit(w.dir, "rm")
 			s.log("rm")
 		}
+	}
+	if windows && r.Chance(85) {
+		_, code := w.git("push", "-q", "origin", "--all")
+		s.log("push origin --all -> %d", code)
 	}
 	// final index / working tree state
 	switch r.Intn(4) {
